@@ -133,6 +133,10 @@ def offence(t, rng, arch, classes):
             opts.append((('b', True), 'mis'))
             opts.append((('a', [('s', 'p'), ('s', 'q')]), 'mis'))
             opts.append((('o', [('x', ('s', 'p'))]), 'mis'))
+    if 'mis' in classes and arch == 'msgpack':
+        # an application-defined extension value (any type code but -1) in place of any typed member: skipped as a whole, whatever header form carries it
+        n = rng.choice([0, 1, 2, 3, 4, 8, 16, 17, 40, 300])
+        opts.append((('x', rng.choice([0, 1, 5, 42, 127, -2, -128]), bytes(rng.randrange(256) for _ in range(n)), rng.choice([None, None, 'ext8', 'ext16', 'ext32'])), 'mis'))
     if 'null' in classes and typed:
         opts.append((('n',), 'null'))
     if not opts:
